@@ -18,6 +18,8 @@ from vf import core  # noqa: E402
 
 NPROC = int(os.environ.get('VERIF_NPROC', '16'))
 THOROUGH_SHARDS = int(os.environ.get('VERIF_SHARDS', '16'))
+# scratch runs against mutated copies of the repository write elsewhere
+OUT = os.environ.get('VERIF_OUT') or core.ROOT
 
 
 def load(pid):
@@ -49,14 +51,14 @@ def _task(args):
 
 
 def write_replay(pid, clause_name, sig, case, detail):
-    d = os.path.join(core.ROOT, 'replays')
+    d = os.path.join(OUT, 'replays')
     os.makedirs(d, exist_ok=True)
     h = core.jhash([clause_name, sig, case])
     path = os.path.join(d, '%s-%s-%s.json' % (pid, clause_name.split('.', 1)[-1], h))
     with open(path, 'w') as f:
         json.dump({'property': pid, 'clause': clause_name, 'signature': sig,
                    'detail': detail, 'case': case}, f, indent=1, sort_keys=True)
-    return os.path.relpath(path, core.ROOT)
+    return os.path.relpath(path, core.ROOT) if OUT == core.ROOT else path
 
 
 def find_clause(mod, name):
@@ -218,8 +220,8 @@ def main(argv):
             'exhaustive': bool(mod.CLAUSES) and all(c.enumerate is not None for c in mod.CLAUSES),
             'violation_signatures': [v[0] for v in violations],
         }}
-    os.makedirs(os.path.join(core.ROOT, 'evidence'), exist_ok=True)
-    with open(os.path.join(core.ROOT, 'evidence', '%s.json' % pid), 'w') as f:
+    os.makedirs(os.path.join(OUT, 'evidence'), exist_ok=True)
+    with open(os.path.join(OUT, 'evidence', '%s.json' % pid), 'w') as f:
         json.dump(ev, f, indent=1, sort_keys=True, default=str)
     print('%s %s seed=%d: %d evaluations, %d distinct non-trivial, %d violation(s), %.1fs' % (
         pid, tier, seed, evaluations, nontriv, len(violations), time.time() - t0))
